@@ -400,6 +400,8 @@ def main(argv):
                   encoding="utf-8") as fh:
             json.dump(ev, fh, indent=1, sort_keys=True, default=repr)
             fh.write("\n")
+    if violations:
+        return 1
     if total.evaluations == 0 or nt < 2:
         print("HARNESS: vacuous run (evaluations=%d nontrivial=%d)"
               % (total.evaluations, nt))
